@@ -401,7 +401,9 @@ class Engine:
         out = []
         for op, c in zip(e.ops, e.comparators):
             r = self.ev(c, st, spec, ctx)
-            if isinstance(op, (ast.Is, ast.IsNot)):
+            if isinstance(l, str) and isinstance(r, str) and isinstance(op, (ast.Eq, ast.NotEq)):
+                res = z3.BoolVal((l == r) == isinstance(op, ast.Eq))
+            elif isinstance(op, (ast.Is, ast.IsNot)):
                 if r is None or l is None:
                     res = z3.BoolVal((l is None and r is None) == isinstance(op, ast.Is))
                 else:
@@ -478,6 +480,11 @@ class Engine:
         return tuple(self.ev(x, st, spec, ctx) for x in e.elts)
 
     def ev_Attribute(self, e, st, spec, ctx):
+        txt = unparse(e)
+        if txt in st.vars:
+            return st.vars[txt]
+        if txt in self.c.attrs:
+            return self.ev(ast.parse(self.c.attrs[txt], mode="eval").body, st, True, ctx)
         v = self.ev(e.value, st, spec, ctx)
         if isinstance(v, SArr):
             if e.attr == "shape":
@@ -627,10 +634,10 @@ class Engine:
                 if isinstance(v, SView):
                     return st.vars[v.base].shape[1 - v.axis]
                 raise OutOfSubset("len")
-            if not spec and name in self.fs.module_funcs:
-                return self.call_contract(name, e, st, ctx)
             if not spec and name in self.c.opaque:
                 return self.call_contract(name, e, st, ctx, self.c.opaque[name])
+            if not spec and name in self.fs.module_funcs:
+                return self.call_contract(name, e, st, ctx)
             raise OutOfSubset(f"call to {name}")
         if isinstance(f, ast.Attribute):
             recv = f.value
@@ -998,11 +1005,12 @@ class Engine:
 
     def assign(self, targets, value, st, s):
         if len(targets) != 1:
-            if all(isinstance(t, ast.Name) for t in targets):
+            if all(isinstance(t, (ast.Name, ast.Subscript)) for t in targets):
                 val = self.ev_code(value, st)
                 self.flush_guarded(st, s)
-                for t in targets:
+                for t in targets:          # Python assigns the targets from left to right
                     self.bind(t, val, st, s)
+                    self.flush_guarded(st, s)
                 return None
             raise OutOfSubset("chained assignment")
         tgt = targets[0]
@@ -1030,6 +1038,9 @@ class Engine:
             return
         if isinstance(tgt, ast.Subscript):
             self.store_sub(tgt, to_num(val) if not is_bool(val) else val, st)
+            return
+        if isinstance(tgt, ast.Attribute):
+            st.vars[unparse(tgt)] = val
             return
         raise OutOfSubset(f"assignment target {ast.unparse(tgt)}")
 
@@ -1155,8 +1166,11 @@ class Engine:
             self._seen_keys.add(key)
         s1 = st.copy(zand(st.guard, c))
         s2 = st.copy(zand(st.guard, z3.Not(c)))
-        r1 = self.exec_block(s.body, s1)
-        r2 = self.exec_block(s.orelse, s2) if s.orelse else self.out(s2)
+        cs = z3.simplify(c)
+        # a branch whose condition is syntactically false is dead code for this contract (e.g. a string constant compared
+        # with a fixed parameter); it is not executed
+        r1 = self.exec_block(s.body, s1) if not z3.is_false(cs) else self.out(None)
+        r2 = (self.exec_block(s.orelse, s2) if s.orelse else self.out(s2)) if not z3.is_true(cs) else self.out(None)
         out = self.out(None)
         for kk in ("brk", "cont", "ret", "rse"):
             out[kk] = r1[kk] + r2[kk]
@@ -1498,10 +1512,23 @@ class Engine:
         self._qdefs = set()
         fn = self.fs.node
         args = [a.arg for a in fn.args.args]
-        if args and args[0] == "self":
+        if args and args[0] in ("self", "cls"):
             args = args[1:]
         env = {}
+        body = strip_doc(fn.body)
+        if self.c.block is not None:
+            # Hoare triple on a contiguous block of the function's statements: inputs are the contract's params
+            keys = [self.fs.after_key.get(id(s_)) for s_ in body]
+            k0, k1 = "after " + self.c.block[0], "after " + self.c.block[1]
+            if k0 not in keys or k1 not in keys or keys.index(k0) > keys.index(k1):
+                raise ContractError(f"{self.fs.qualname}: block {self.c.block} not found among the top-level statements")
+            body = body[keys.index(k0):keys.index(k1) + 1]
+            for a, t in self.c.params.items():
+                env[a] = self.mk_param(a.replace(".", "_"), t)
+            args = list(self.c.params)
         for a in args:
+            if a in env:
+                continue
             if a not in self.c.params:
                 raise ContractError(f"{self.fs.qualname}: parameter {a} has no type in the contract")
             env[a] = self.mk_param(a, self.c.params[a])
@@ -1521,7 +1548,7 @@ class Engine:
         for lm in self.lemma_instances(self.c.lemmas_at.get("entry", []), st, {"old": self.entry}):
             self.fact(lm)
         self._seen_keys.update(("entry", "post"))
-        r = self.exec_block(strip_doc(fn.body), st)
+        r = self.exec_block(body, st)
         rets = list(r["ret"])
         for nn in self.flat(r["normal"]):
             rets.append((nn, None))
